@@ -28,6 +28,14 @@ def histories(tier, rng):
             add(size, cap, [H(1), S(), S(), K(1), S(), S()] + [S() for _ in range(size)])         # messages queued at a worker that dies are lost
             add(size, cap, [C(), C(), H(1), C(), C(), R(1), C()])
             add(size, cap, [{"op": "add", "w": 0, "n": 1}, S(), S(), S(), S(), {"op": "remove", "w": 0, "n": 1}, S(), S(), S()])
+    # workers added later are part of the round: when every original worker is full the message must reach an added one
+    for size in (1, 2):
+        for cap in (1, 2):
+            for extra in (1, 2):
+                A = {"op": "add", "w": 0, "n": extra}
+                hold = [H(w) for w in range(1, size + 1)]
+                add(size, cap, [A] + hold + [S() for _ in range((cap + 1) * size + extra + 1)] + [C(), C()] + [R(w) for w in range(1, size + 1)])
+                add(size, cap, hold + [S() for _ in range((cap + 1) * size)] + [A] + [S(), C(), S()] + [R(w) for w in range(1, size + 1)])
     for size in (2, 3):
         add(size, 0, [H(1)] + [S() for _ in range(7)] + [R(1)])                                    # unbounded mailboxes never skip
     n = 60 if tier == "quick" else 6000
